@@ -35,13 +35,19 @@ func c08Variant(i, v int) string {
 		if other == 2 {
 			mod = "sub.f2"
 		}
+		if i == 2 {
+			// loaded by path: resolved through the file-exists cache, not through the module index
+			return fmt.Sprintf("local m%d = dofile(\"f%d.lua\")\nprint(m%d)\n", i, other, i)
+		}
 		return fmt.Sprintf("local m%d = require(\"%s\")\nprint(m%d)\n", i, mod, i)
+	case 8: // a second clean text
+		return fmt.Sprintf("local t%d = { 1 }\nreturn t%d\n", i, i)
 	default: // another syntax error variant
 		return fmt.Sprintf("local function q%d(\nprint(1)\n", i)
 	}
 }
 
-func c08HasSyntaxError(v int) bool { return v == 1 || v >= 6 }
+func c08HasSyntaxError(v int) bool { return v == 1 || v == 6 || v == 7 }
 
 type c08Err struct{ ty int; key, extra, render string }
 
@@ -89,9 +95,19 @@ func runC08(res *lib.Result, tier string, seed int64, args []string) error {
 		dir := lib.ScratchDir(fmt.Sprintf("c08h%d", hi))
 		disk := map[string]int{} // file → variant on disk (absent = does not exist)
 		files := map[string]string{}
+		// every fourth history keeps everything that is SAVED free of diagnostics (variants 0 and 8 on disk,
+		// syntax errors only in unsaved buffers): "the whole workspace is clean" is a state of its own in the
+		// push logic
+		cleanMode := hi%4 == 3
+		diskVariant := func() int {
+			if cleanMode {
+				return []int{0, 8}[r.Intn(2)]
+			}
+			return r.Intn(6)
+		}
 		for i, n := range names {
-			if r.Chance(5, 6) {
-				disk[n] = r.Intn(6)
+			if cleanMode || r.Chance(5, 6) {
+				disk[n] = diskVariant()
 				files[n] = c08Variant(i, disk[n])
 			}
 		}
@@ -189,18 +205,37 @@ func runC08(res *lib.Result, tier string, seed int64, args []string) error {
 		}
 		nEv := 6 + r.Intn(17)
 		ok := true
-		for e := 0; e < nEv && ok; e++ {
+		// clean-mode histories start with a scripted prefix: an unsaved syntax error is abandoned by closing the
+		// file, then another file is edited cleanly and saved (the workspace is clean again at that event)
+		type scripted struct{ i, k, v int }
+		var script []scripted
+		if cleanMode && hi%8 == 7 {
+			a, b := r.Intn(3), r.Intn(3)
+			for b == a {
+				b = r.Intn(3)
+			}
+			script = []scripted{{a, 0, 0}, {a, 2, []int{1, 6, 7}[r.Intn(3)]}, {a, 7, 0}, {b, 0, 0}, {b, 2, []int{0, 8}[r.Intn(2)]}, {b, 5, 0}}
+		}
+		for e := 0; e < nEv+len(script) && ok; e++ {
 			i := r.Intn(3)
 			n := names[i]
 			k := r.Intn(10)
+			forceV := -1
+			if e < len(script) {
+				i, k, forceV = script[e].i, script[e].k, script[e].v
+				n = names[i]
+				if _, exists := disk[n]; !exists {
+					continue
+				}
+			}
 			// steer towards applicable events
-			if len(open) == 0 && k <= 7 {
+			if e >= len(script) && len(open) == 0 && k <= 7 {
 				for j, cand := range names {
 					if _, exists := disk[cand]; exists {
 						i, n, k = j, cand, 0
 					}
 				}
-			} else if k >= 2 && k <= 7 && !open[n] {
+			} else if e >= len(script) && k >= 2 && k <= 7 && !open[n] {
 				for j, cand := range names {
 					if open[cand] {
 						i, n = j, cand
@@ -223,6 +258,12 @@ func runC08(res *lib.Result, tier string, seed int64, args []string) error {
 					continue
 				}
 				v := r.Intn(8)
+				if cleanMode {
+					v = []int{0, 8, 1, 6, 7}[r.Intn(5)]
+				}
+				if forceV >= 0 {
+					v = forceV
+				}
 				buffer[n] = v
 				dirty[n] = true
 				sawDirty = true
@@ -276,14 +317,14 @@ func runC08(res *lib.Result, tier string, seed int64, args []string) error {
 				sawFileEvent = true
 				typ := 0
 				if _, exists := disk[n]; !exists {
-					v := r.Intn(6)
+					v := diskVariant()
 					disk[n] = v
 					os.MkdirAll(filepath.Dir(filepath.Join(dir, n)), 0o755)
 					os.WriteFile(filepath.Join(dir, n), []byte(c08Variant(i, v)), 0o644)
 					typ = 1
 					history = append(history, fmt.Sprintf("create %s (variant %d) + didChangeWatchedFiles", n, v))
 				} else if r.Chance(1, 2) {
-					v := r.Intn(6)
+					v := diskVariant()
 					disk[n] = v
 					os.MkdirAll(filepath.Dir(filepath.Join(dir, n)), 0o755)
 					os.WriteFile(filepath.Join(dir, n), []byte(c08Variant(i, v)), 0o644)
